@@ -124,6 +124,10 @@ def _polarity(f, at_, region, op, want):
     return found
 
 
+def _no_helpers(call):
+    return False
+
+
 def _map_polarity(prog, f, call):
     """(negated?, from the helper's result?) of the Value::Bool that a
     `.map(..)` on the result of `call` builds: `.map(Value::Bool)` or
@@ -236,6 +240,9 @@ def rule_R10_3(ctx):
                 hcl = prog.fns.get(kd_.get("def", "")) if kd_.get("k") == "closure" else None
                 if hcl is None or not hcl.full:
                     continue
+                # (the operator test may be a small classifier, `negates(op)`)
+                import inline
+                hcl = inline.view(prog, hcl, pick=_no_helpers, classifiers=True)
                 opcp = None
                 for b_ in range(len(hcl.blocks)):
                     if hcl.is_cleanup(b_) or hcl.term(b_)["k"] != "switch":
